@@ -338,7 +338,7 @@ func runC15(c *fw.Ctx, idx int) fw.Result {
 	case 4: // variants windows
 		format := []string{"gb", "gff"}[r.Intn(2)]
 		form := []string{"fasta", "sam"}[r.Intn(2)]
-		opts := gen.AnnoOpts{MaxFeats: 4, AllowUnnamed: true, AllowSlip: false, SplitCodons: true}
+		opts := gen.AnnoOpts{MaxFeats: 4, AllowUnnamed: true, AllowSlip: false, SplitCodons: true, Rotate: true, NoStop: true}
 		vp := gen.DefaultVarProfile()
 		vp.PSub = 0.12
 		vp.Recur = true
@@ -504,7 +504,7 @@ func runC15(c *fw.Ctx, idx int) fw.Result {
 			return res
 		}
 		format := []string{"gb", "gff"}[r.Intn(2)]
-		opts := gen.AnnoOpts{MaxFeats: 3, AllowUnnamed: true, SplitCodons: true}
+		opts := gen.AnnoOpts{MaxFeats: 3, AllowUnnamed: true, SplitCodons: true, Rotate: true, NoStop: true}
 		ac := makeAnnoCase(r, c.Thorough(), format, "fasta", gen.DefaultVarProfile(), 6, opts)
 		if ac.refID == "" {
 			ac.refID = ac.an.RefName
